@@ -21,6 +21,8 @@ def arbint_rows():
 def tag_of(d):
     if any(r.get("sp") in ("shl", "and") and r["k"] in ("greater", "less") for r in d["val"]):
         return "arb_precedence"
+    if d["san"] and d["vmode"] == "std" and any(s_.get("fn") == "dbl_sat" for s_ in d["san"]):
+        return "arb_int_sanitizer_subset"
     if d["san"] and d["vmode"] == "std":
         return "arb_int_sanitizer"
     return ""
@@ -86,7 +88,9 @@ def check_C14():
         # sanitizer declarations (the shape of the repaired defect 39e03ec) are always in the sample
         keep = [o for o in rows if o["d"]["san"] and o["d"]["vmode"] == "std"]
         rest = [o for o in rows if not (o["d"]["san"] and o["d"]["vmode"] == "std")]
-        rows = rng.sample(keep, min(len(keep), 40)) + rng.sample(rest, 120)
+        dbl = [o for o in keep if o.get("subset")]
+        others = [o for o in keep if not o.get("subset")]
+        rows = dbl + rng.sample(others, min(len(others), 40)) + rng.sample(rest, 120)
     decls = instantiate(rows, rng, 1 if q else 3)
     cover = [d for d in decls if valid_size(d) <= 65536 and valid_size(d) >= 1]
     by_id = {d["id"]: d for d in decls}
@@ -105,7 +109,10 @@ def check_C14():
         d = by_id.get(rec.get("decl"))
         if d:
             rec["tag"] = d["tag"]
-            rec["observed_kind"] = rec.get("observed", {}).get("k")
+            ob = rec.get("observed", {})
+            rec["observed_kind"] = ob.get("k")
+            if rec.get("ep") == "arb_cover":
+                rec["observed_kind"] = "cover_without_panic" if ob.get("k") == "obs" and not ob.get("panics") else ("hang" if ob.get("k") == "hang" else "cover_with_panic")
             rec["summary"] = "[%s] %s" % (d["tag"] or "-", rec["summary"])
         return orig(rec)
     verdict.violation = tagged
@@ -239,6 +246,8 @@ def string_inputs_arb(d, rng, n):
         ins.append([t] + le_bytes(32, 4) + le_bytes(97, 4) * 19)
         ins.append([t] + le_bytes(97, 4) * 2 + le_bytes(32, 4) * 18)
         ins.append([t] + le_bytes(32, 4) * 3 + le_bytes(0xDF, 4) * 17)
+        ins.append([t] + le_bytes(97, 4) + le_bytes(32, 4) * 45)            # one visible character, then a long run of white space
+        ins.append([t] + le_bytes(32, 4) * 40 + le_bytes(97, 4) * 3)
     for _ in range(n):
         t = rng.randrange(256)
         body = []
@@ -279,8 +288,10 @@ def check_C09():
     # --- declarations
     if q:
         ik = [o for o in irows if o["d"]["san"] and o["d"]["vmode"] == "std"]      # shape of the repaired defect 39e03ec
+        ik.sort(key=lambda o: not o.get("subset"))
         io = [o for o in irows if not (o["d"]["san"] and o["d"]["vmode"] == "std")]
-        irows = rng.sample(ik, min(30, len(ik))) + rng.sample(io, min(70, len(io)))
+        dblk = [o for o in ik if o.get("subset")]
+        irows = dblk + rng.sample([o for o in ik if not o.get("subset")], min(30, len(ik) - len(dblk))) + rng.sample(io, min(70, len(io)))
         sk = [o for o in srows if o["known"]]
         so = [o for o in srows if not o["known"]]
         # two minimum-like rules (not_empty + len_char_min): the shape of the repaired defect 3251cda is always replayed
